@@ -118,4 +118,16 @@ example : languagesWithBadTags (fun c => c = "en".toList)
     = ["French".toList, "Bosnian (bos)".toList] := by decide
 example : ianaDue (fun c => c = "en".toList) "fr".toList = true := by decide
 
+/-! ## the tables the triggers are read from (pinned: the documented sets) -/
+
+/-- the deprecated metadata types of the documentation -/
+theorem deprecated_pinned : deprecatedTypes = ["simserial".toList, "subscriberid".toList] := by decide
+/-- the translatable columns of the two sheets -/
+theorem translatable_pinned :
+    surveyTrTable.map (·.1) = ["label", "hint", "guidance_hint", "image", "big-image", "audio", "video",
+      "jr:constraintMsg", "jr:requiredMsg"].map String.toList ∧
+    choicesTrTable.map (·.1) = ["label", "image", "big-image", "audio", "video"].map String.toList := by decide
+/-- spelling checks are made for sheets that are supported names -/
+theorem default_language_pinned : defaultLang = "default".toList := by decide
+
 end Pyxv.C20
